@@ -1039,16 +1039,13 @@ def _check_dispatch_order(ck, rule, fa, D, pairs, label):
     for (sub, sup) in pairs:
         if sub == sup or sub not in names or sup not in names:
             continue
-        differ, ok = False, True
-        for kind in ("exact", "sub"):
-            own_sub, own_sup = D.outcome((sub, kind, "own")), D.outcome((sup, kind, "own"))
-            if own_sub == own_sup:
-                continue
-            differ = True
-            if D.outcome((sub, kind, "actual")) == own_sup:
-                ok = False
-        if differ:
-            verdicts.append((sub, sup, ok))
+        # what the rungs written for `sub` and for `sup` answer (a value of an unnamed subclass reaches no exact-class table)
+        own_sub, own_sup = D.outcome((sub, "sub", "own")), D.outcome((sup, "sub", "own"))
+        if own_sub == own_sup:
+            continue
+        # ... and what a `sub` value really gets: exactly that class (exact-class tables apply) or a subclass of it
+        ok = all(D.outcome((sub, kind, "actual")) != own_sup for kind in ("exact", "sub"))
+        verdicts.append((sub, sup, ok))
     for (sub, sup, ok) in verdicts:
         ck.ob(rule, fa.key(None, "%s:%s-before-%s" % (label, sub, sup)), ok,
               "%s is tested before its superclass %s" % (sub, sup) if ok else
